@@ -105,6 +105,10 @@ def _gen_js(stratum, rng):
         nm = rng.randint(1, 2)
         durs = rng.choice([[1], [2, 2, 3], [1, 5], [0, 1, 4], [3, 3, 3, 7]])
         jobs = [[(rng.randrange(nm), rng.choice(durs)) for _ in range(rng.randint(1, 4))] for _ in range(nj)]
+    if rng.random() < 0.05:
+        # "any machine indices": machines are names, not sizes - a shop whose machines are numbered 10**12, 10**12 + 7
+        off = rng.choice([10**9, 10**12, 2**60])
+        jobs = [[(off + 7 * m, d) for m, d in job] for job in jobs]
     rule = rng.choice(RULES)
     if rng.random() < 0.15:
         rule = rng.choice([rule.upper(), rule.capitalize()])
